@@ -96,8 +96,14 @@ def judge_all(prop, cfg, lines, impl, model, incidents):
             a0 = impl[i] if impl[i] is not None else "missing"
             if " !run-" in a0:
                 impl[i], rep_diff = a0.split(" !run-", 1)
+        if op[0] == "parname" and impl[i] is not None and " !threads-differ:" in impl[i]:
+            impl[i], rep_diff = impl[i].split(" !threads-differ:", 1)
+            rep_diff = "threads that looked the name up at the same moment got " + rep_diff
         if op[0] == "rmode":
             ctx.reader_mode = op[1] if len(op) > 1 else "0"
+            continue
+        if op[0] == "iomode":
+            ctx.count("iomode_" + (op[1] if len(op) > 1 else "0"))
             continue
         if op[0] == "amode":
             ctx.count("amode_" + (op[1] if len(op) > 1 else "0"))
@@ -121,9 +127,9 @@ def judge_all(prop, cfg, lines, impl, model, incidents):
             ctx.count("lines_under_fragmenting_reader")
         if op[0] in spec["probes"]:
             evaluations += 1
-            nt = nontrivial or (op[0] in ("dec", "decat", "decq", "deca", "decg") and len(op) > 1 and len(op[-1]) >= 16) or op[0] in ("fx", "sweep", "sdec", "senc", "serve", "cli", "cliswitch", "clim", "lsn", "lsnpipe", "sdecmany", "servemany", "tls", "tlsq", "tlsrude", "ctcp")
+            nt = nontrivial or (op[0] in ("dec", "decat", "decq", "deca", "decg") and len(op) > 1 and len(op[-1]) >= 16) or op[0] in ("fx", "sweep", "psweep", "sdec", "senc", "serve", "cli", "cliswitch", "clim", "lsn", "lsnpipe", "sdecmany", "servemany", "tls", "tlsq", "tlsrude", "ctcp")
             if nt:
-                distinct.add(h.digest() if op[0] not in ("dec", "decat", "decq", "deca", "decg", "fx", "sweep", "sdec", "senc", "serve", "cli", "cliswitch", "clim", "lsn", "lsnpipe", "sdecmany", "servemany", "tls", "tlsq", "tlsrude", "ctcp") else core.sha(l))
+                distinct.add(h.digest() if op[0] not in ("dec", "decat", "decq", "deca", "decg", "fx", "sweep", "psweep", "sdec", "senc", "serve", "cli", "cliswitch", "clim", "lsn", "lsnpipe", "sdecmany", "servemany", "tls", "tlsq", "tlsrude", "ctcp") else core.sha(l))
             if len(samples) < 6 and (evaluations % 997 == 1):
                 samples.append({"line": l[:300], "implementation": a[:300], "model": (model[i] or "")[:400]})
         for f in fs:
